@@ -151,6 +151,9 @@ def statements(depth):
     S.append(("qubit_reg", ["QUBIT_KW", "L_BRACK", slot("IDX"), "R_BRACK", "IDENT", "SEMICOLON"]))
     S.append(("qreg", ["QREG_KW", "IDENT", "L_BRACK", "INT_NUMBER", "R_BRACK", "SEMICOLON"]))
     S.append(("creg", ["CREG_KW", "IDENT", "L_BRACK", "INT_NUMBER", "R_BRACK", "SEMICOLON"]))
+    # oldStyleDeclarationStatement: (CREG | QREG) Identifier designator? SEMICOLON  - the designator is optional
+    S.append(("qreg_single", ["QREG_KW", "IDENT", "SEMICOLON"]))
+    S.append(("creg_single", ["CREG_KW", "IDENT", "SEMICOLON"]))
     # ---- I/O declarations (spec: Directives / Input-output)
     S.append(("io", [slot("IO"), slot("TYPE"), "IDENT", "SEMICOLON"]))
     S.append(("iow", [slot("IO"), slot("TYPEW"), "L_BRACK", "INT_NUMBER", "R_BRACK", "IDENT", "SEMICOLON"]))
@@ -215,6 +218,10 @@ def statements(depth):
     S.append(("for_range3", ["FOR_KW", slot("TYPEW"), "L_BRACK", "INT_NUMBER", "R_BRACK", "IDENT", "IN_KW", "L_BRACK", slot("ATOM"), "COLON", slot("ATOM"), "COLON", slot("ATOM"), "R_BRACK", "L_CURLY", "R_CURLY"]))
     S.append(("for_set", ["FOR_KW", slot("TYPE"), "IDENT", "IN_KW", "L_CURLY", slot("ATOM"), "COMMA", slot("ATOM"), "R_CURLY", "L_CURLY", "R_CURLY"]))
     S.append(("for_ident", ["FOR_KW", slot("TYPE"), "IDENT", "IN_KW", "IDENT", "L_CURLY", "R_CURLY"]))
+    # forStatement: FOR scalarType Identifier IN (setExpression | '[' rangeExpression ']' | expression) statementOrScope
+    S.append(("for_ident_single_gatecall", ["FOR_KW", "INT_TY", "IDENT", "IN_KW", "IDENT", "IDENT", "IDENT", "SEMICOLON"]))
+    # setExpression: LBRACE expression (COMMA expression)* COMMA? RBRACE
+    S.append(("for_set_trailing_comma", ["FOR_KW", "INT_TY", "IDENT", "IN_KW", "L_CURLY", slot("ATOM"), "COMMA", slot("ATOM"), "COMMA", "R_CURLY", "L_CURLY", "R_CURLY"]))
     S.append(("for_neg_range", ["FOR_KW", "INT_TY", "IDENT", "IN_KW", "L_BRACK", "MINUS", "INT_NUMBER", "COLON", slot("ATOM"), "R_BRACK", "IDENT", "IDENT", "SEMICOLON"]))
     S.append(("switch1", ["SWITCH_KW", "L_PAREN", slot("ATOM"), "R_PAREN", "L_CURLY", "CASE_KW", slot("ATOM"), "L_CURLY", "R_CURLY", "R_CURLY"]))
     S.append(("switch2", ["SWITCH_KW", "L_PAREN", slot("ATOM"), "R_PAREN", "L_CURLY", "CASE_KW", "INT_NUMBER", "COMMA", "INT_NUMBER", "L_CURLY", "IDENT", "IDENT", "SEMICOLON", "R_CURLY",
@@ -231,6 +238,9 @@ def statements(depth):
     # ---- aliases (spec: Types - "Aliasing")
     S.append(("alias", ["LET_KW", "IDENT", "EQ", "IDENT", "SEMICOLON"]))
     S.append(("alias_slice", ["LET_KW", "IDENT", "EQ", "IDENT", "L_BRACK", slot("ATOM"), "COLON", slot("ATOM"), "R_BRACK", "SEMICOLON"]))
+    # rangeExpression: expression? COLON expression? (COLON expression)?  - either bound may be absent
+    S.append(("alias_slice_open_hi", ["LET_KW", "IDENT", "EQ", "IDENT", "L_BRACK", slot("ATOM"), "COLON", "R_BRACK", "SEMICOLON"]))
+    S.append(("alias_slice_open_lo", ["LET_KW", "IDENT", "EQ", "IDENT", "L_BRACK", "COLON", slot("ATOM"), "R_BRACK", "SEMICOLON"]))
     S.append(("alias_concat", ["LET_KW", "IDENT", "EQ", "IDENT", ("joint", ["PLUS", "PLUS"]), "IDENT", "SEMICOLON"]))
     S.append(("alias_set", ["LET_KW", "IDENT", "EQ", "IDENT", "L_BRACK", "L_CURLY", slot("ATOM"), "COMMA", slot("ATOM"), "R_CURLY", "R_BRACK", "SEMICOLON"]))
     # ---- every expression form in every list-like expression position (index, range bound, call argument,
